@@ -1000,8 +1000,8 @@ class Run:
             for j in range(n_):
                 self.store(('P', dst[1], dst[2] + j), vals[j], e.get('l'))
             return dst
-        if fn in self.externs and not e.get('clsp') and e.get('obj') is None:
-            return self.externs[fn](self, e, [self.val(a) for a in e.get('a', [])])
+        if (fn in self.externs or (e.get('pq') or '') in self.externs) and not e.get('clsp') and e.get('obj') is None:
+            return self.externs[fn if fn in self.externs else e['pq']](self, e, [self.val(a) for a in e.get('a', [])])
         if fn == 'memcmp' and not e.get('clsp') and len(e.get('a', [])) == 3:
             a = [self.val(x) for x in e['a']]
             if not (isinstance(a[0], tuple) and isinstance(a[1], tuple) and isinstance(a[2], int)):
